@@ -33,7 +33,7 @@ def decode_escapes(s, position=0):
     def decode_match(match):
         try:
             return codecs.decode(match.group(0), 'unicode-escape')
-        except UnicodeDecodeError:
+        except UnicodeError:
             # malformed escape (\xzz, \N{no such name}, ...): report it as a
             # lexical error at the backslash instead of leaking the codec's
             # exception to the caller
